@@ -1060,6 +1060,15 @@ func c01Shrinks(c c01Case) []c01Case {
 					m.C[k].C[1] = &c01N{K: "none"}
 					repl = append(repl, m)
 				}
+				// reduce the pattern of the arm: to one of its sub-patterns, without one
+				// element / field / the rest binding, a field sub-pattern to the
+				// shorthand, a literal pattern to the integer 0 (so that a failure that
+				// does not depend on the exact pattern is keyed with the smallest one)
+				for _, q := range c01PatShrinks(e.C[k].C[0]) {
+					m := e.clone()
+					m.C[k].C[0] = q
+					repl = append(repl, m)
+				}
 			}
 		}
 		if e.K == "flat" && len(e.C) > 2 {
@@ -1095,6 +1104,47 @@ func c01Shrinks(c c01Case) []c01Case {
 				*c01ExprAt(&d.Prog, ei) = rp
 				return true
 			})
+		}
+	}
+	return out
+}
+
+// c01PatShrinks: the one-step reductions of a match pattern.
+func c01PatShrinks(p *c01N) []*c01N {
+	var out []*c01N
+	switch p.K {
+	case "pfloat", "pstr", "pbool", "pnull":
+		out = append(out, &c01N{K: "pint"})
+	case "pint":
+		if p.I != 0 {
+			out = append(out, &c01N{K: "pint"})
+		}
+	case "parr", "pobj":
+		for i, c := range p.C {
+			if c.K != "none" {
+				out = append(out, c.clone())
+			}
+			m := p.clone()
+			m.C = append(m.C[:i:i], m.C[i+1:]...)
+			if p.K == "pobj" {
+				m.Ss = append(m.Ss[:i:i], m.Ss[i+1:]...)
+			}
+			out = append(out, m)
+			if p.K == "pobj" && c.K != "none" {
+				m := p.clone()
+				m.C[i] = &c01N{K: "none"}
+				out = append(out, m)
+			}
+			for _, q := range c01PatShrinks(c) {
+				m := p.clone()
+				m.C[i] = q
+				out = append(out, m)
+			}
+		}
+		if p.K == "parr" && p.S != "" {
+			m := p.clone()
+			m.S = ""
+			out = append(out, m)
 		}
 	}
 	return out
